@@ -144,6 +144,19 @@ def make_unit(iset, cube_name, cube_pred, memarch='PMSA', nregions=1, props=('C1
                     return e.run_function(fn, list(a), {})
                 return Contract(fn, spec, engine=True)
             contracts[fn] = mk(fn, nm)
+        # coprocessor instructions: the (mock) transfer hooks are reached only through Coproc_Accepted() for the same coprocessor
+        gates = eng.register([])
+
+        def gate(fn, nm, pos_cp):
+            def spec(e, *a):
+                gates.append((nm, a[pos_cp] if len(a) > pos_cp else None))
+                return e.run_function(fn, list(a), {})
+            return Contract(fn, spec, engine=True)
+        contracts[A.coproc_accepted] = gate(A.coproc_accepted, 'coproc_accepted', 1)
+        for nm, pos in (('coproc_get_word_to_store', 1), ('coproc_done_storing', 1), ('coproc_done_loading', 1), ('coproc_send_loaded_word', 2),
+                        ('coproc_send_two_words', 3), ('coproc_get_two_words', 1), ('coproc_internal_operation', 1), ('coproc_send_one_word', 2),
+                        ('coproc_get_one_word', 1)):
+            contracts[getattr(A, nm)] = gate(getattr(A, nm), nm, pos)
         eng.contracts = contracts
         outcome = 'ok'
         exc = None
@@ -194,6 +207,16 @@ def make_unit(iset, cube_name, cube_pred, memarch='PMSA', nregions=1, props=('C1
             ob = eng.oblige('frame.own', '%s: no write to an object outside the processor instance' % tag, not eng.foreign_writes,
                             detail='; '.join(eng.foreign_writes[:4]))
             ob.props = ['C20']
+            hooks = [g_ for g_ in gates if g_[0] != 'coproc_accepted']
+            if hooks:
+                acc = [g_ for g_ in gates if g_[0] == 'coproc_accepted']
+                okg = bool(acc) and gates[0][0] == 'coproc_accepted'
+                ob = eng.oblige('post.gate', '%s: the coprocessor hook %s is reached only after Coproc_Accepted()' % (tag, hooks[0][0]), okg)
+                ob.props = ['C12', 'C19']
+                if okg:
+                    ob = eng.oblige('post.gate', '%s: Coproc_Accepted() was asked about the coprocessor the transfer goes to, and nothing changed before the hook' % tag,
+                                    land(values_eq(acc[0][1], hooks[0][1]), *[values_eq(v, init[k]) for k, v in final.items() if k not in SCRATCH]))
+                    ob.props = ['C12', 'C19']
             # hints and barriers (rows marked mock): the hook is reached only when the condition passes, and nothing has changed by then
             want_ = 'arm' if iset == 'arm' else ('t16' if iset == 'thumb16' else 't32')
             for r in [r_ for r_ in ENC.rows_for(kname) if r_.iset == want_ and getattr(r_, 'mock', False)]:
